@@ -12,8 +12,21 @@ package pub
 // and the assumed contracts of the application interfaces are in /verif/spec.
 
 // ---- specification macros
+// the id of a value: its 'id' if that holds an IRI, else (for Link-like values) its 'href'
+//@ specfun hasOwnId(t) = props[t]["JSONLDId"] != nil && idval[props[t]["JSONLDId"]] != nil
+//@ specfun hasHref(t) = implements(t, "pub.hrefer") && props[t]["ActivityStreamsHref"] != nil && hrefval[props[t]["ActivityStreamsHref"]] != nil
+//@ specfun idOK(t) = hasOwnId(t) || hasHref(t)
+//@ specfun idOf(t) = hasOwnId(t) ? idval[props[t]["JSONLDId"]] : hrefval[props[t]["ActivityStreamsHref"]]
+// the id of a property element: the id of the embedded value, or the IRI it holds
+//@ specfun elemIdOK(e) = e.GetType() != nil ? idOK(e.GetType()) : e.IsIRI()
+//@ specfun elemId(e) = e.GetType() != nil ? idOf(e.GetType()) : e.GetIRI()
 // the origin rule of C06: every object id of activity x has the host (host:port) of x's own id
-//@ specfun originOK(x) = GetId_1(x) == nil && (forall j Int :: {x.GetActivityStreamsObject().At(j)} 0 <= j && j < x.GetActivityStreamsObject().Len() ==> ToId_1(x.GetActivityStreamsObject().At(j)) == nil && ToId(x.GetActivityStreamsObject().At(j)).Host == GetId(x).Host)
+//@ specfun originOK(x) = idOK(x) && (forall j Int :: {x.GetActivityStreamsObject().At(j)} 0 <= j && j < x.GetActivityStreamsObject().Len() ==> elemIdOK(x.GetActivityStreamsObject().At(j)) && cast(elemId(x.GetActivityStreamsObject().At(j)), "*net/url.URL").Host == cast(idOf(x), "*net/url.URL").Host)
+
+// C05: slot k of value cc holds one IRI element per element of the slot k that oo had on entry, in order, each the id (ToId) of that element
+//@ specfun copiedSlot(cc, oo, k) = old(props[oo][k]) != nil ==> props[cc][k] != nil && props[cc][k].Len() == lenv(old(ASHP), old(props[oo][k])) && (forall j Int :: {props[cc][k].At(j)} 0 <= j && j < props[cc][k].Len() ==> props[cc][k].At(j).IsIRI() && props[cc][k].At(j).GetIRI() == old(elemId(atv(ASHP, props[oo][k], j))))
+// C05: cc is a Create-like value whose object is exactly [oo] and whose actor is exactly [aa]
+//@ specfun wrapsObject(cc, oo, aa) = cc != nil && props[cc]["ActivityStreamsObject"] != nil && props[cc]["ActivityStreamsObject"].Len() == 1 && props[cc]["ActivityStreamsObject"].At(0).GetType() == oo && props[cc]["ActivityStreamsActor"] != nil && props[cc]["ActivityStreamsActor"].Len() == 1 && props[cc]["ActivityStreamsActor"].At(0).IsIRI() && props[cc]["ActivityStreamsActor"].At(0).GetIRI() == aa
 
 // The DelegateActor that baseActor talks to is taken to be the library's sideEffectActor;
 // a custom delegate (NewCustomActor) is assumed to meet the same contracts.
@@ -65,7 +78,7 @@ package pub
 //@ [C10] ensures error_unwritten: result0 && result1 != nil ==> libWrote == 0
 //@ [C10] ensures one_status: result0 && result1 == nil ==> wrote == 1
 //@ [C10] ensures disabled_405: r.Method == "POST" && isASMedia(old(hdr)[r.Header]["Content-Type"]) && !b.enableFederatedProtocol ==> result0 && result1 == nil && status == 405
-//@ modifies $db, authed, cleared, typeUnknown, lacksId, lastBlocked, reqMissing, wrote, libWrote, status, sentHdr, bodyWrites, hdr, bufstr, H:net/url.URL.Host, H:net/url.URL.Scheme, A:Int, A:Iface
+//@ modifies $db, authed, cleared, typeUnknown, lacksId, lastBlocked, reqMissing, wrote, libWrote, status, sentHdr, bodyWrites, hdr, bufstr, H:net/url.URL.Host, H:net/url.URL.Scheme, A:Int, A:Iface, nDeliver, nNewID, actIdTick
 //@ [C10] at call streams.ToType#1: ghost typeUnknown = isUnmatched($res1)
 //@ [C10] at call pub.Activity.GetJSONLDId#1: ghost lacksId = $res0 == nil || $res0.Get() == nil
 //@ [C10] at call pub.DelegateActor.PostInbox#1: ghost reqMissing = $res0 == pub.ErrObjectRequired || $res0 == pub.ErrTargetRequired
@@ -90,7 +103,7 @@ package pub
 //@ [C10] ensures not_handled: !result0 ==> wrote == 0 && result1 == nil
 //@ [C10] ensures error_unwritten: result0 && result1 != nil ==> libWrote == 0
 //@ [C10] ensures one_status: result0 && result1 == nil ==> wrote == 1
-//@ modifies $db, authed, cleared, typeUnknown, lacksId, lastBlocked, reqMissing, wrote, libWrote, status, sentHdr, bodyWrites, hdr, bufstr, H:net/url.URL.Host, H:net/url.URL.Scheme, A:Int, A:Iface
+//@ modifies $db, authed, cleared, typeUnknown, lacksId, lastBlocked, reqMissing, wrote, libWrote, status, sentHdr, bodyWrites, hdr, bufstr, H:net/url.URL.Host, H:net/url.URL.Scheme, A:Int, A:Iface, nDeliver, nNewID, actIdTick
 
 //@ func (*pub.baseActor).PostOutboxScheme
 //@ params b, c, w, r, scheme
@@ -108,7 +121,7 @@ package pub
 //@ [C10] ensures error_unwritten: result0 && result1 != nil ==> libWrote == 0
 //@ [C10] ensures one_status: result0 && result1 == nil ==> wrote == 1
 //@ [C10] ensures disabled_405: r.Method == "POST" && isASMedia(old(hdr)[r.Header]["Content-Type"]) && !b.enableSocialProtocol ==> result0 && result1 == nil && status == 405
-//@ modifies $db, authed, cleared, typeUnknown, lacksId, lastBlocked, reqMissing, newId, wrote, libWrote, status, sentHdr, bodyWrites, hdr, bufstr, H:net/url.URL.Host, H:net/url.URL.Scheme, A:Int, A:Iface
+//@ modifies $db, authed, cleared, typeUnknown, lacksId, lastBlocked, reqMissing, newId, wrote, libWrote, status, sentHdr, bodyWrites, hdr, bufstr, H:net/url.URL.Host, H:net/url.URL.Scheme, A:Int, A:Iface, nSetOutbox, nDeliver, nNewID, actIdTick, snapV, snapP, snapIRI
 //@ [C10] at call streams.ToType#1: ghost typeUnknown = isUnmatched($res1)
 //@ [C10] at call (*pub.baseActor).deliver#1: ghost reqMissing = $res1 == pub.ErrObjectRequired || $res1 == pub.ErrTargetRequired
 //@ [C10] at call (*pub.baseActor).deliver#1: ghost newId = $res0.GetJSONLDId().Get()
@@ -130,7 +143,7 @@ package pub
 //@ [C10] ensures not_handled: !result0 ==> wrote == 0 && result1 == nil
 //@ [C10] ensures error_unwritten: result0 && result1 != nil ==> libWrote == 0
 //@ [C10] ensures one_status: result0 && result1 == nil ==> wrote == 1
-//@ modifies $db, authed, cleared, typeUnknown, lacksId, lastBlocked, reqMissing, newId, wrote, libWrote, status, sentHdr, bodyWrites, hdr, bufstr, H:net/url.URL.Host, H:net/url.URL.Scheme, A:Int, A:Iface
+//@ modifies $db, authed, cleared, typeUnknown, lacksId, lastBlocked, reqMissing, newId, wrote, libWrote, status, sentHdr, bodyWrites, hdr, bufstr, H:net/url.URL.Host, H:net/url.URL.Scheme, A:Int, A:Iface, nSetOutbox, nDeliver, nNewID, actIdTick, snapV, snapP, snapIRI
 
 //@ func (*pub.baseActor).GetInbox
 //@ params b, c, w, r
@@ -188,10 +201,17 @@ package pub
 //@ [C08] requires unlocked: held == emp
 //@ [C08] ensures unlocked: held == emp
 //@ [C07] requires authed: authed
-//@ modifies $db, A:Int, A:Iface
+//@ modifies $db, A:Int, A:Iface, nSetOutbox, nDeliver, nNewID, actIdTick, snapV, snapP, snapIRI
 //@ [C11] ensures id_set: err == nil ==> activity != nil && activity.GetJSONLDId() != nil && activity.GetJSONLDId().Get() != nil
 //@ [C11] at call pub.DelegateActor.PostOutbox#1: assume!post id_stable: activity.GetJSONLDId() == old(activity.GetJSONLDId()) && activity.GetJSONLDId().Get() == old(activity.GetJSONLDId().Get())
 //@ [C11] at call pub.DelegateActor.Deliver#1: assume!post id_stable: activity.GetJSONLDId() == old(activity.GetJSONLDId()) && activity.GetJSONLDId().Get() == old(activity.GetJSONLDId().Get())
+//@ [C05] at call pub.DelegateActor.PostOutbox#1: assert identified_before_stored: activity.GetJSONLDId() != nil && activity.GetJSONLDId().Get() == newIdAt(actIdTick) && old(nNewID) < actIdTick && nSetOutbox == old(nSetOutbox) && nDeliver == old(nDeliver)
+//@ [C05] at call pub.DelegateActor.Deliver#1: assert stored_and_listed_before_delivery: nSetOutbox == old(nSetOutbox) + 1 && nDeliver == old(nDeliver)
+//@ [C05] ensures delivery_implies_listed_once: nDeliver != old(nDeliver) ==> nSetOutbox == old(nSetOutbox) + 1
+//@ [C05] ensures accepted_is_listed_once: err == nil ==> nSetOutbox == old(nSetOutbox) + 1 && activity.GetJSONLDId().Get() == newIdAt(actIdTick) && old(nNewID) < actIdTick
+//@ [C05] ensures at_most_once: nSetOutbox <= old(nSetOutbox) + 1
+//@ [C05] at call pub.DelegateActor.PostOutbox#1: assume!post id_stable: activity.GetJSONLDId() == old(activity.GetJSONLDId()) && activity.GetJSONLDId().Get() == old(activity.GetJSONLDId().Get())
+//@ [C05] at call pub.DelegateActor.Deliver#1: assume!post id_stable: activity.GetJSONLDId() == old(activity.GetJSONLDId()) && activity.GetJSONLDId().Get() == old(activity.GetJSONLDId().Get())
 
 //@ func (*pub.baseActorFederating).Send
 //@ params b, c, outbox, t
@@ -201,7 +221,9 @@ package pub
 //@ [C08] requires unlocked: held == emp
 //@ [C08] ensures unlocked: held == emp
 //@ [C07] requires authed: authed
-//@ modifies $db, A:Int, A:Iface
+//@ modifies $db, A:Int, A:Iface, nSetOutbox, nDeliver, nNewID, actIdTick, snapV, snapP, snapIRI
+//@ [C05] ensures accepted_is_listed_once: result1 == nil ==> nSetOutbox == old(nSetOutbox) + 1
+//@ [C05] ensures delivery_implies_listed_once: nDeliver != old(nDeliver) ==> nSetOutbox == old(nSetOutbox) + 1
 
 // ---------------------------------------------------------------- side_effect_actor.go
 //@ func (*pub.sideEffectActor).AuthenticatePostInbox
@@ -289,8 +311,8 @@ package pub
 //@ loop 1 [C11] decreases actor.Len() - i
 //@ [C11] requires has_id: activity.GetJSONLDId() != nil
 //@ [C11] ensures actor_present: authorized ==> activity.GetActivityStreamsActor() != nil
-//@ [C06] at call pub.FederatingProtocol.Blocked#1: assert every_actor_id_asked: len($arg2) == actor.Len() && (forall j Int :: {$arg2[j]} 0 <= j && j < actor.Len() ==> $arg2[j] == (actor.At(j).IsIRI() ? actor.At(j).GetIRI() : GetId(actor.At(j).GetType())))
-//@ loop 1 [C06] invariant collected: 0 <= i && i <= actor.Len() && len(iris) == i && (forall j Int :: {iris[j]} 0 <= j && j < i ==> iris[j] == (actor.At(j).IsIRI() ? actor.At(j).GetIRI() : GetId(actor.At(j).GetType())))
+//@ [C06] at call pub.FederatingProtocol.Blocked#1: assert every_actor_id_asked: len($arg2) == actor.Len() && (forall j Int :: {$arg2[j]} 0 <= j && j < actor.Len() ==> $arg2[j] == (actor.At(j).IsIRI() ? actor.At(j).GetIRI() : idOf(actor.At(j).GetType())))
+//@ loop 1 [C06] invariant collected: 0 <= i && i <= actor.Len() && len(iris) == i && (forall j Int :: {iris[j]} 0 <= j && j < i ==> iris[j] == (actor.At(j).IsIRI() ? actor.At(j).GetIRI() : idOf(actor.At(j).GetType())))
 //@ [C06] ensures blocked_is_refused: lastBlocked ==> !authorized
 
 //@ func (*pub.sideEffectActor).PostInbox
@@ -301,7 +323,7 @@ package pub
 //@ [C08] requires unlocked: held == emp
 //@ [C08] ensures unlocked: held == emp
 //@ [C07] requires authed: authed && cleared
-//@ modifies $db, A:Int, A:Iface
+//@ modifies $db, A:Int, A:Iface, nDeliver, nNewID, actIdTick
 //@ [C11] requires has_id: activity.GetJSONLDId() != nil
 //@ [C11] requires has_actor: activity.GetActivityStreamsActor() != nil
 //@ [C11] ensures id_kept: activity.GetJSONLDId() == old(activity.GetJSONLDId())
@@ -315,7 +337,7 @@ package pub
 //@ [C08] requires unlocked: held == emp
 //@ [C08] ensures unlocked: held == emp
 //@ [C07] requires authed: authed && cleared
-//@ modifies $db, A:Int, A:Iface
+//@ modifies $db, A:Int, A:Iface, nDeliver
 //@ loop 4 [C09] invariant unlocked: held == emp
 //@ loop 4 [C08] invariant unlocked: held == emp
 //@ loop 4 [C09] invariant nothing_deferred: deferredUnlock == emp
@@ -332,10 +354,13 @@ package pub
 //@ [C08] requires unlocked: held == emp
 //@ [C08] ensures unlocked: held == emp
 //@ [C07] requires authed: authed
-//@ modifies $db, A:Int, A:Iface
+//@ modifies $db, A:Int, A:Iface, nSetOutbox, nDeliver, snapV, snapP, snapIRI
 //@ [C11] requires has_id: activity.GetJSONLDId() != nil
 //@ [C11] requires a.clock != nil
 //@ [C11] at call (streams.TypeResolver).Resolve#1: assume!post id_stable: activity.GetJSONLDId() == old(activity.GetJSONLDId())
+//@ [C05] ensures stored_and_listed_once: err == nil ==> nSetOutbox == old(nSetOutbox) + 1
+//@ [C05] ensures at_most_once: nSetOutbox <= old(nSetOutbox) + 1
+//@ [C05] ensures nothing_delivered: nDeliver == old(nDeliver)
 
 //@ func (*pub.sideEffectActor).AddNewIDs
 //@ params a, c, activity
@@ -343,9 +368,14 @@ package pub
 //@ [C07] requires authed: authed
 //@ [C09] ensures unchanged: held == old(held)
 //@ [C08] ensures unchanged: held == old(held)
-//@ modifies eff, appCalls, ASH, ASHP, props, idval
+//@ modifies eff, appCalls, ASH, ASHP, props, idval, nNewID, actIdTick
 //@ [C11] ensures id_set: err == nil ==> activity.GetJSONLDId() != nil && activity.GetJSONLDId().Get() != nil
 //@ loop 1 [C11] invariant id_set: activity.GetJSONLDId() != nil && activity.GetJSONLDId().Get() != nil
+//@ [C05] at call pub.Activity.SetJSONLDId#1: ghost actIdTick = nNewID
+//@ [C05] at call streams/vocab.Type.SetJSONLDId#1: ghost actIdTick = ($arg0 == activity ? nNewID : actIdTick)
+//@ [C05] ensures fresh_activity_id: err == nil ==> activity.GetJSONLDId() != nil && activity.GetJSONLDId().Get() == newIdAt(actIdTick) && old(nNewID) < actIdTick && actIdTick <= nNewID
+//@ loop 1 [C05] invariant fresh_activity_id: activity.GetJSONLDId() != nil && activity.GetJSONLDId().Get() == newIdAt(actIdTick) && old(nNewID) < actIdTick && actIdTick <= nNewID
+//@ [C05] ensures ids_only_grow: nNewID >= old(nNewID)
 
 //@ func (*pub.sideEffectActor).Deliver
 //@ params a, c, outboxIRI, activity
@@ -355,7 +385,7 @@ package pub
 //@ [C08] requires unlocked: held == emp
 //@ [C08] ensures unlocked: held == emp
 //@ [C07] requires authed: authed
-//@ modifies $db, A:Int, A:Iface
+//@ modifies $db, A:Int, A:Iface, nDeliver
 
 //@ func (*pub.sideEffectActor).WrapInCreate
 //@ params a, c, obj, outboxIRI
@@ -365,7 +395,10 @@ package pub
 //@ [C08] requires unlocked: held == emp
 //@ [C08] ensures unlocked: held == emp
 //@ [C07] requires authed: authed
-//@ modifies $db
+//@ modifies $db, snapIRI
+//@ [C05] ensures nothing_listed_or_delivered: nSetOutbox == old(nSetOutbox) && nDeliver == old(nDeliver) && nNewID == old(nNewID)
+//@ [C05] at call pub.Database.ActorForOutbox#1: ghost snapIRI = $res0
+//@ [C05] ensures wraps_for_outbox_owner: err == nil ==> wrapsObject(create, obj, snapIRI)
 
 //@ func (*pub.sideEffectActor).deliverToRecipients
 //@ params a, c, boxIRI, activity, recipients
@@ -381,8 +414,14 @@ package pub
 //@ [C08] requires unlocked: held == emp
 //@ [C08] ensures unlocked: held == emp
 //@ [C07] requires authed: authed
-//@ modifies $db
+//@ modifies $db, nSetOutbox, snapV, snapP, snapIRI
 //@ [C11] requires has_id: activity.GetJSONLDId() != nil
+//@ [C05] at call streams/vocab.ActivityStreamsOrderedItemsProperty.PrependIRI#1: ghost snapV = old(ASHP)
+//@ [C05] at call streams/vocab.ActivityStreamsOrderedItemsProperty.PrependIRI#1: ghost snapP = $arg0
+//@ [C05] at call streams/vocab.ActivityStreamsOrderedItemsProperty.PrependIRI#1: ghost snapIRI = $arg1
+//@ [C05] at call pub.Database.SetOutbox#1: assert id_at_front_once: outbox.GetActivityStreamsOrderedItems() == snapP && snapIRI == activity.GetJSONLDId().Get() && snapP.Len() == lenv(snapV, snapP) + 1 && snapP.At(0).IsIRI() && snapP.At(0).GetIRI() == snapIRI && (forall j Int :: {snapP.At(j)} 1 <= j && j < snapP.Len() ==> snapP.At(j) == atv(snapV, snapP, j - 1))
+//@ [C05] ensures stored_and_listed_once: err == nil ==> nSetOutbox == old(nSetOutbox) + 1 && nCreate == old(nCreate) + 1 && lastCreated == activity
+//@ [C05] ensures at_most_once: nSetOutbox <= old(nSetOutbox) + 1
 
 //@ func (*pub.sideEffectActor).addToInboxIfNew
 //@ params a, c, inboxIRI, activity
@@ -528,7 +567,7 @@ package pub
 //@ [C08] requires unlocked: held == emp
 //@ [C08] ensures unlocked: held == emp
 //@ [C07] requires authed: authed && cleared
-//@ modifies $db, A:Int, A:Iface
+//@ modifies $db, A:Int, A:Iface, nDeliver, nNewID, actIdTick
 //@ [C08] at call Database.Update#1: assert same_hold: held[srcKey[followers]] && srcEpoch[followers] == epoch[srcKey[followers]]
 //@ [C10] ensures object_required: old(a.GetActivityStreamsObject() == nil || a.GetActivityStreamsObject().Len() == 0) ==> result == pub.ErrObjectRequired && eff == old(eff)
 //@ [C11] requires has_actor: a.GetActivityStreamsActor() != nil
@@ -892,13 +931,15 @@ package pub
 //@ params i
 //@ [C11] requires i != nil
 //@ [C11] ensures nonnil_id: result1 == nil ==> result0 != nil
-//@ pure ASH props idval
+//@ ensures defines_ok: (result1 == nil) == elemIdOK(i)
+//@ ensures defines_id: result1 == nil ==> result0 == elemId(i)
 
 //@ func pub.GetId
 //@ params t
 //@ [C11] requires t != nil
 //@ [C11] ensures nonnil_id: result1 == nil ==> result0 != nil
-//@ pure ASH props idval
+//@ ensures defines_ok: (result1 == nil) == idOK(t)
+//@ ensures defines_id: result1 == nil ==> result0 == idOf(t)
 
 //@ func pub.getInboxForwardingValues
 //@ params o
@@ -909,6 +950,47 @@ package pub
 //@ params ctx, o, actor
 //@ [C11] requires o != nil
 //@ modifies ASH, ASHP, props
+//@ [C05] ensures wraps: err == nil ==> wrapsObject(c, o, actor)
+//@ [C05x] ensures copies_to: err == nil && implements(o, "pub.toer") ==> copiedSlot(c, o, "ActivityStreamsTo")
+//@ [C05x] ensures copies_bto: err == nil && implements(o, "pub.btoer") ==> copiedSlot(c, o, "ActivityStreamsBto")
+//@ [C05x] ensures copies_cc: err == nil && implements(o, "pub.ccer") ==> copiedSlot(c, o, "ActivityStreamsCc")
+//@ [C05x] ensures copies_bcc: err == nil && implements(o, "pub.bccer") ==> copiedSlot(c, o, "ActivityStreamsBcc")
+//@ [C05x] ensures copies_audience: err == nil && implements(o, "pub.audiencer") ==> copiedSlot(c, o, "ActivityStreamsAudience")
+//@ loop 1 [C05] invariant wraps: wrapsObject(c, o, actor)
+//@ loop 1 [C05x] invariant source_unchanged: to == old(props[o]["ActivityStreamsTo"])
+//@ loop 1 [C05x] invariant position: iter != nil ==> iter == to.At(ipos(iter)) && iparent(iter) == to && ilen(iter) == to.Len()
+//@ loop 1 [C05x] invariant progress: activityTo.Len() == (iter == nil ? to.Len() : ipos(iter)) && (forall j Int :: {activityTo.At(j)} 0 <= j && j < activityTo.Len() ==> activityTo.At(j).IsIRI() && activityTo.At(j).GetIRI() == old(elemId(atv(ASHP, to, j))))
+//@ loop 2 [C05] invariant wraps: wrapsObject(c, o, actor)
+//@ loop 2 [C05x] invariant source_unchanged: bto == old(props[o]["ActivityStreamsBto"])
+//@ loop 2 [C05x] invariant position: iter != nil ==> iter == bto.At(ipos(iter)) && iparent(iter) == bto && ilen(iter) == bto.Len()
+//@ loop 2 [C05x] invariant progress: activityBto.Len() == (iter == nil ? bto.Len() : ipos(iter)) && (forall j Int :: {activityBto.At(j)} 0 <= j && j < activityBto.Len() ==> activityBto.At(j).IsIRI() && activityBto.At(j).GetIRI() == old(elemId(atv(ASHP, bto, j))))
+//@ loop 2 [C05x] invariant earlier_to: implements(o, "pub.toer") ==> copiedSlot(c, o, "ActivityStreamsTo")
+//@ loop 3 [C05] invariant wraps: wrapsObject(c, o, actor)
+//@ loop 3 [C05x] invariant source_unchanged: cc == old(props[o]["ActivityStreamsCc"])
+//@ loop 3 [C05x] invariant position: iter != nil ==> iter == cc.At(ipos(iter)) && iparent(iter) == cc && ilen(iter) == cc.Len()
+//@ loop 3 [C05x] invariant progress: activityCc.Len() == (iter == nil ? cc.Len() : ipos(iter)) && (forall j Int :: {activityCc.At(j)} 0 <= j && j < activityCc.Len() ==> activityCc.At(j).IsIRI() && activityCc.At(j).GetIRI() == old(elemId(atv(ASHP, cc, j))))
+//@ loop 3 [C05x] invariant earlier_to: implements(o, "pub.toer") ==> copiedSlot(c, o, "ActivityStreamsTo")
+//@ loop 3 [C05x] invariant earlier_bto: implements(o, "pub.btoer") ==> copiedSlot(c, o, "ActivityStreamsBto")
+//@ loop 4 [C05] invariant wraps: wrapsObject(c, o, actor)
+//@ loop 4 [C05x] invariant source_unchanged: bcc == old(props[o]["ActivityStreamsBcc"])
+//@ loop 4 [C05x] invariant position: iter != nil ==> iter == bcc.At(ipos(iter)) && iparent(iter) == bcc && ilen(iter) == bcc.Len()
+//@ loop 4 [C05x] invariant progress: activityBcc.Len() == (iter == nil ? bcc.Len() : ipos(iter)) && (forall j Int :: {activityBcc.At(j)} 0 <= j && j < activityBcc.Len() ==> activityBcc.At(j).IsIRI() && activityBcc.At(j).GetIRI() == old(elemId(atv(ASHP, bcc, j))))
+//@ loop 4 [C05x] invariant earlier_to: implements(o, "pub.toer") ==> copiedSlot(c, o, "ActivityStreamsTo")
+//@ loop 4 [C05x] invariant earlier_bto: implements(o, "pub.btoer") ==> copiedSlot(c, o, "ActivityStreamsBto")
+//@ loop 4 [C05x] invariant earlier_cc: implements(o, "pub.ccer") ==> copiedSlot(c, o, "ActivityStreamsCc")
+//@ loop 5 [C05] invariant wraps: wrapsObject(c, o, actor)
+//@ loop 5 [C05x] invariant source_unchanged: aud == old(props[o]["ActivityStreamsAudience"])
+//@ loop 5 [C05x] invariant position: iter != nil ==> iter == aud.At(ipos(iter)) && iparent(iter) == aud && ilen(iter) == aud.Len()
+//@ loop 5 [C05x] invariant progress: activityAudience.Len() == (iter == nil ? aud.Len() : ipos(iter)) && (forall j Int :: {activityAudience.At(j)} 0 <= j && j < activityAudience.Len() ==> activityAudience.At(j).IsIRI() && activityAudience.At(j).GetIRI() == old(elemId(atv(ASHP, aud, j))))
+//@ loop 5 [C05x] invariant earlier_to: implements(o, "pub.toer") ==> copiedSlot(c, o, "ActivityStreamsTo")
+//@ loop 5 [C05x] invariant earlier_bto: implements(o, "pub.btoer") ==> copiedSlot(c, o, "ActivityStreamsBto")
+//@ loop 5 [C05x] invariant earlier_cc: implements(o, "pub.ccer") ==> copiedSlot(c, o, "ActivityStreamsCc")
+//@ loop 5 [C05x] invariant earlier_bcc: implements(o, "pub.bccer") ==> copiedSlot(c, o, "ActivityStreamsBcc")
+//@ loop 1 [C05] invariant others_unchanged: (forall q Iface :: {q.Len()} q != oProp && q != actorProp && q != activityTo ==> q.Len() == lenv(old(ASHP), q)) && (forall q Iface, j Int :: {q.At(j)} q != oProp && q != actorProp && q != activityTo ==> q.At(j) == atv(old(ASHP), q, j))
+//@ loop 2 [C05] invariant others_unchanged: (forall q Iface :: {q.Len()} q != oProp && q != actorProp && q != activityTo && q != activityBto ==> q.Len() == lenv(old(ASHP), q)) && (forall q Iface, j Int :: {q.At(j)} q != oProp && q != actorProp && q != activityTo && q != activityBto ==> q.At(j) == atv(old(ASHP), q, j))
+//@ loop 3 [C05] invariant others_unchanged: (forall q Iface :: {q.Len()} q != oProp && q != actorProp && q != activityTo && q != activityBto && q != activityCc ==> q.Len() == lenv(old(ASHP), q)) && (forall q Iface, j Int :: {q.At(j)} q != oProp && q != actorProp && q != activityTo && q != activityBto && q != activityCc ==> q.At(j) == atv(old(ASHP), q, j))
+//@ loop 4 [C05] invariant others_unchanged: (forall q Iface :: {q.Len()} q != oProp && q != actorProp && q != activityTo && q != activityBto && q != activityCc && q != activityBcc ==> q.Len() == lenv(old(ASHP), q)) && (forall q Iface, j Int :: {q.At(j)} q != oProp && q != actorProp && q != activityTo && q != activityBto && q != activityCc && q != activityBcc ==> q.At(j) == atv(old(ASHP), q, j))
+//@ loop 5 [C05] invariant others_unchanged: (forall q Iface :: {q.Len()} q != oProp && q != actorProp && q != activityTo && q != activityBto && q != activityCc && q != activityBcc && q != activityAudience ==> q.Len() == lenv(old(ASHP), q)) && (forall q Iface, j Int :: {q.At(j)} q != oProp && q != actorProp && q != activityTo && q != activityBto && q != activityCc && q != activityBcc && q != activityAudience ==> q.At(j) == atv(old(ASHP), q, j))
 
 //@ func pub.filterURLs
 //@ params u, fn
@@ -947,8 +1029,8 @@ package pub
 //@ [C11] requires a != nil
 //@ [C06] ensures origin_checked: result == nil && a.GetActivityStreamsObject() != nil && a.GetActivityStreamsObject().Len() > 0 ==> originOK(a)
 //@ loop 1 [C06] invariant position: iter != nil ==> iter == op.At(ipos(iter)) && iparent(iter) == op && ilen(iter) == op.Len()
-//@ loop 1 [C06] invariant checked_so_far: forall j Int :: {op.At(j)} 0 <= j && j < (iter == nil ? op.Len() : ipos(iter)) ==> ToId_1(op.At(j)) == nil && ToId(op.At(j)).Host == originHost
-//@ loop 1 [C06] invariant origin: GetId_1(a) == nil && originHost == GetId(a).Host && op == a.GetActivityStreamsObject()
+//@ loop 1 [C06] invariant checked_so_far: forall j Int :: {op.At(j)} 0 <= j && j < (iter == nil ? op.Len() : ipos(iter)) ==> elemIdOK(op.At(j)) && cast(elemId(op.At(j)), "*net/url.URL").Host == originHost
+//@ loop 1 [C06] invariant origin: idOK(a) && originHost == cast(idOf(a), "*net/url.URL").Host && op == a.GetActivityStreamsObject()
 
 //@ func pub.normalizeRecipients
 //@ params a
